@@ -1,0 +1,100 @@
+//go:build verif
+
+package config
+
+// Contracts for package config (comment-only; checked by /verif/engine).
+
+//@ func IsEnumAction
+//@   props C08 C12
+//@   pure
+//@   ensures result == strings.HasPrefix(s, "@")
+
+//@ func validateEnumAction
+//@   props C08 C12
+//@   ensures (result == nil) == (s == "@panic" || s == "@error" || s == "@ignore")
+
+//@ pred KnownCommonKey(cmd string) bool = cmd == "wrapErrors" || cmd == "wrapErrorsUsing" || cmd == "ignoreUnexported"
+//@     || cmd == "update:ignoreZeroValueField" || cmd == "update:ignoreZeroValueField:basic" || cmd == "update:ignoreZeroValueField:struct"
+//@     || cmd == "update:ignoreZeroValueField:nillable" || cmd == "default:update" || cmd == "matchIgnoreCase" || cmd == "ignoreMissing"
+//@     || cmd == "skipCopySameType" || cmd == "useZeroValueOnPointerInconsistency" || cmd == "useUnderlyingTypeMethods" || cmd == "enum"
+//@     || cmd == "arg:context:regex" || cmd == "enum:unknown"
+
+//@ pred WrapConsistent(c *Common) bool = !(c.WrapErrors && c.WrapErrorsUsing != "")
+
+// parseCommon: for each of the inheritable keys exactly which fields change and to what (frame + value);
+// an unknown or empty key and a malformed value are errors; the wrapErrors/wrapErrorsUsing conflict is an error.
+//@ func parseCommon
+//@   props C12 C10 C11
+//@   requires c != nil
+//@   assigns c.*
+//@   ensures !KnownCommonKey(cmd) ==> err != nil && unchangedExcept(c) && !fieldSetting
+//@   ensures old(WrapConsistent(c)) && err == nil ==> WrapConsistent(c)
+//@   ensures cmd == "wrapErrors" ==> unchangedExcept(c, "WrapErrors") && fieldSetting == false
+//@   ensures cmd == "wrapErrors" && old(c.WrapErrorsUsing) != "" ==> err != nil && unchangedExcept(c)
+//@   ensures cmd == "wrapErrors" && old(c.WrapErrorsUsing) == "" ==> (err == nil) == parse.BoolOK(rest)
+//@   ensures cmd == "wrapErrors" && err == nil ==> c.WrapErrors == parse.BoolValue(rest)
+//@   ensures cmd == "ignoreUnexported" ==> unchangedExcept(c, "IgnoreUnexported") && fieldSetting == true
+//@   ensures cmd == "ignoreUnexported" ==> (err == nil) == parse.BoolOK(rest)
+//@   ensures cmd == "ignoreUnexported" && err == nil ==> c.IgnoreUnexported == parse.BoolValue(rest)
+//@   ensures cmd == "update:ignoreZeroValueField" ==> unchangedExcept(c, "IgnoreBasicZeroValueField", "IgnoreStructZeroValueField", "IgnoreNillableZeroValueField") && fieldSetting == true
+//@   ensures cmd == "update:ignoreZeroValueField" ==> (err == nil) == parse.BoolOK(rest)
+//@   ensures cmd == "update:ignoreZeroValueField" && err == nil ==> c.IgnoreBasicZeroValueField == parse.BoolValue(rest) && c.IgnoreStructZeroValueField == parse.BoolValue(rest) && c.IgnoreNillableZeroValueField == parse.BoolValue(rest)
+//@   ensures cmd == "update:ignoreZeroValueField:basic" ==> unchangedExcept(c, "IgnoreBasicZeroValueField") && fieldSetting == false
+//@   ensures cmd == "update:ignoreZeroValueField:basic" ==> (err == nil) == parse.BoolOK(rest)
+//@   ensures cmd == "update:ignoreZeroValueField:basic" && err == nil ==> c.IgnoreBasicZeroValueField == parse.BoolValue(rest)
+//@   ensures cmd == "update:ignoreZeroValueField:struct" ==> unchangedExcept(c, "IgnoreStructZeroValueField") && fieldSetting == false
+//@   ensures cmd == "update:ignoreZeroValueField:struct" ==> (err == nil) == parse.BoolOK(rest)
+//@   ensures cmd == "update:ignoreZeroValueField:struct" && err == nil ==> c.IgnoreStructZeroValueField == parse.BoolValue(rest)
+//@   ensures cmd == "update:ignoreZeroValueField:nillable" ==> unchangedExcept(c, "IgnoreNillableZeroValueField") && fieldSetting == false
+//@   ensures cmd == "update:ignoreZeroValueField:nillable" ==> (err == nil) == parse.BoolOK(rest)
+//@   ensures cmd == "update:ignoreZeroValueField:nillable" && err == nil ==> c.IgnoreNillableZeroValueField == parse.BoolValue(rest)
+//@   ensures cmd == "default:update" ==> unchangedExcept(c, "DefaultUpdate") && fieldSetting == false
+//@   ensures cmd == "default:update" ==> (err == nil) == parse.BoolOK(rest)
+//@   ensures cmd == "default:update" && err == nil ==> c.DefaultUpdate == parse.BoolValue(rest)
+//@   ensures cmd == "matchIgnoreCase" ==> unchangedExcept(c, "MatchIgnoreCase") && fieldSetting == true
+//@   ensures cmd == "matchIgnoreCase" ==> (err == nil) == parse.BoolOK(rest)
+//@   ensures cmd == "matchIgnoreCase" && err == nil ==> c.MatchIgnoreCase == parse.BoolValue(rest)
+//@   ensures cmd == "ignoreMissing" ==> unchangedExcept(c, "IgnoreMissing") && fieldSetting == true
+//@   ensures cmd == "ignoreMissing" ==> (err == nil) == parse.BoolOK(rest)
+//@   ensures cmd == "ignoreMissing" && err == nil ==> c.IgnoreMissing == parse.BoolValue(rest)
+//@   ensures cmd == "skipCopySameType" ==> unchangedExcept(c, "SkipCopySameType") && fieldSetting == false
+//@   ensures cmd == "skipCopySameType" ==> (err == nil) == parse.BoolOK(rest)
+//@   ensures cmd == "skipCopySameType" && err == nil ==> c.SkipCopySameType == parse.BoolValue(rest)
+//@   ensures cmd == "useZeroValueOnPointerInconsistency" ==> unchangedExcept(c, "UseZeroValueOnPointerInconsistency") && fieldSetting == false
+//@   ensures cmd == "useZeroValueOnPointerInconsistency" ==> (err == nil) == parse.BoolOK(rest)
+//@   ensures cmd == "useZeroValueOnPointerInconsistency" && err == nil ==> c.UseZeroValueOnPointerInconsistency == parse.BoolValue(rest)
+//@   ensures cmd == "useUnderlyingTypeMethods" ==> unchangedExcept(c, "UseUnderlyingTypeMethods") && fieldSetting == false
+//@   ensures cmd == "useUnderlyingTypeMethods" ==> (err == nil) == parse.BoolOK(rest)
+//@   ensures cmd == "useUnderlyingTypeMethods" && err == nil ==> c.UseUnderlyingTypeMethods == parse.BoolValue(rest)
+//@   ensures cmd == "enum" ==> unchangedExcept(c, "Enum") && c.Enum.Unknown == old(c.Enum.Unknown) && same(c.Enum.Excludes, old(c.Enum.Excludes)) && !fieldSetting
+//@   ensures cmd == "enum" ==> (err == nil) == parse.BoolOK(rest)
+//@   ensures cmd == "enum" && err == nil ==> c.Enum.Enabled == parse.BoolValue(rest)
+//@   ensures cmd == "wrapErrorsUsing" ==> unchangedExcept(c, "WrapErrorsUsing") && !fieldSetting
+//@   ensures cmd == "wrapErrorsUsing" && old(c.WrapErrors) ==> err != nil && unchangedExcept(c)
+//@   ensures cmd == "wrapErrorsUsing" && !old(c.WrapErrors) ==> (err == nil) == parse.StringOK(rest)
+//@   ensures cmd == "wrapErrorsUsing" && err == nil ==> c.WrapErrorsUsing == parse.StringValue(rest)
+//@   ensures cmd == "enum:unknown" ==> unchangedExcept(c, "Enum") && c.Enum.Enabled == old(c.Enum.Enabled) && same(c.Enum.Excludes, old(c.Enum.Excludes)) && !fieldSetting
+//@   ensures cmd == "enum:unknown" && err == nil ==> parse.StringOK(rest) && c.Enum.Unknown == parse.StringValue(rest)
+//@   ensures cmd == "enum:unknown" && err == nil && strings.HasPrefix(c.Enum.Unknown, "@") ==> c.Enum.Unknown == "@panic" || c.Enum.Unknown == "@error" || c.Enum.Unknown == "@ignore"
+//@   ensures cmd == "enum:unknown" && !parse.StringOK(rest) ==> err != nil
+//@   ensures cmd == "arg:context:regex" ==> unchangedExcept(c, "ArgContextRegex") && !fieldSetting
+//@   ensures cmd == "arg:context:regex" && !parse.StringOK(rest) ==> err != nil
+
+// ---- C09 ----
+//@ func parseMethods
+//@   props C09
+//@   maprange 2 unordered-result names
+
+//@ func getPackages
+//@   props C09
+//@   maprange 3 unordered-result pkgs
+
+// registerMethodLines only inserts package paths that are a function of its arguments (it never reads or
+// deletes from lookup). Stated with a ghost set; ASSUMED (trusted), listed in the evidence.
+//@ ghost MethodLinePkgs(sourcePackage string, lines RawLines) map[string]bool
+//@ func registerMethodLines
+//@   props C09
+//@   trusted
+//@   requires lookup != nil
+//@   assigns map(lookup)
+//@   ensures forall k string :: has(lookup, k) == (old(has(lookup, k)) || has(MethodLinePkgs(sourcePackage, lines), k))
